@@ -158,7 +158,7 @@ def enumerated_batches(ctx, res, per=30):
     res.add_tlc(g)
     cases = g.tagged("CASE")
     total = len(cases)
-    keep = 6000 if ctx.quick else 24000        # (90 000 documents made a 3.5 GB trace and the driver was killed for memory)
+    keep = 6000 if ctx.quick else 36000
     if total > keep:
         # a seed-dependent systematic sample (every document is reached over the seeds)
         step = -(-total // keep)
@@ -189,15 +189,24 @@ def run_mode(ctx, res, mode):
     cases = [make_case(ctx, i, mode == "C02") for i in range(n)]
     cases += [fixture_case(ctx, i) for i in range(n // 5)]
     batches, enum_total, enum_used = enumerated_batches(ctx, res)
-    cases += batches
     vlib.write_ndjson(ctx.path("cases.ndjson"), cases)
     vlib.run_harness(["typegen", vlib.CLI_BIN, ctx.path("cases.ndjson"), ctx.path("events.ndjson"), ctx.path("proj"), "12"], timeout=3000)
     events = vlib.read_ndjson(ctx.path("events.ndjson"))
-    for e in events:
-        if e["id"].startswith("gb"):
-            e["ev"] = "TypeGenBatch"
-            e.pop("resolversTs", None)
     o = vlib.validate_trace("Trace_C01", "Trace_C01.cfg", events, workdir=ctx.work, timeout=3400, xmx="3g", extra_env={"MODE": mode, "TIER": ctx.tier})
+    # the enumerated documents: a large trace, written by the harness and handed to TLC as a file (never loaded here)
+    for b in batches:
+        b["evName"] = "TypeGenBatch"
+    vlib.write_ndjson(ctx.path("enum_cases.ndjson"), batches)
+    vlib.run_harness(["typegen", vlib.CLI_BIN, ctx.path("enum_cases.ndjson"), ctx.path("enum_events.ndjson"), ctx.path("proj"), "12"], timeout=6000)
+    o2 = vlib.validate_trace("Trace_C01", "Trace_C01.cfg", ctx.path("enum_events.ndjson"), workdir=ctx.path("enum"), timeout=6000, xmx="3g",
+                             extra_env={"MODE": mode, "TIER": ctx.tier})
+    o.events += o2.events
+    o.items += o2.items
+    o.stats += o2.stats
+    o.generated += o2.generated
+    o.distinct += o2.distinct
+    for k, v in o2.coverage.items():
+        o.coverage[k] = o.coverage.get(k, 0) + v
     res.add_trace(o)
     discards = [s for s in o.stats if "discard" in s]
     judged = [s for s in o.stats if "ok" in s]
@@ -218,7 +227,7 @@ def run_mode(ctx, res, mode):
                 "@skip / @include on variables and literals; children in every order): %d complete documents, of which %d are run (%s), batched %d "
                 "to a project and judged the same way (Trace_C01!TGenBatch; %d discarded as not valid / not merge-consistent). "
                 "Non-trivial = distinct accepted document." %
-                (len(cases) - len(batches), "for every operation and fragment TLC enumerates Responses(X, sigma) for every runtime type and every assignment of the "
+                (len(cases), "for every operation and fragment TLC enumerates Responses(X, sigma) for every runtime type and every assignment of the "
                  "Boolean variables (null / non-null, list length 0 / 1, every enum value, every possible object type) and requires each to be a "
                  "member of the emitted type" if mode == "C01" else
                  "for every operation and fragment TLC enumerates RefLocal(X), perturbs every member at one position (null, absent, other atom "
